@@ -11,11 +11,12 @@ CHECKERS = dict(C15_rt.CHECKERS) if C15_rt else {}
 TEXT = {
     "C15.step.rules": "one update_for_epoch call: early-stopping and lr-reduction count-down transitions, stop decision, lr multiplied iff criterion fires outside cool-down and change not negligible (and written to every param group), frame, history invariant preserved",
     "C15.best.argmin": "get_best_epoch = earliest epoch minimising the formatted metric (loop invariant over the history)",
+    "C15.P.initial_row": "update_cache without a history file: the epoch-0 row holds each criterion's OWN burn-in and patience, infinite metrics and the configured learning rate (base case of the history invariant)",
 }
 
 
 def run(ctx):
-    api.run_vcs(ctx, C15_vc.vcs(ctx), TEXT)
+    api.run_vcs(ctx, C15_vc.vcs(ctx) + C15_vc.initial_vcs(ctx), TEXT)
     for a in C15_vc.ASSUME:
         ctx.assume(a)
     if C15_rt:
